@@ -463,6 +463,12 @@ func (c *RetryClient) Retry(ctx context.Context) {
 				c.newRetryByError = true
 				break
 			}
+			if c.newRetryByError {
+				// A queued request failed on its first transmission and re-queued itself.
+				// Keep the remaining requests behind it to preserve the order.
+				c.retryQueue = append(c.retryQueue, oldRetryQueue[i+1:]...)
+				break
+			}
 		}
 	})
 }
